@@ -17,6 +17,7 @@ const (
 	sBV
 	sFP
 	sStr
+	sAtom // a Go string that is only ever compared: element of the uninterpreted sort Atom (IRIs, hosts)
 )
 
 // sym is a symbolic scalar: an SMT term of sort Bool, (_ BitVec w),
@@ -29,6 +30,78 @@ type sym struct {
 	w  int
 	e  string
 	ie string
+	pc *pathCtx // set for atoms (needed to intern string literals they are compared with)
+}
+
+func isAtom(v value) bool {
+	s, ok := v.(*sym)
+	return ok && s.s == sAtom
+}
+
+// atomStr converts an atom to a String-sorted term (formatting, concatenation).
+func atomStr(a *sym) *sym {
+	pc := a.pc
+	pc.note("an opaque IRI/host atom was converted to text (uninterpreted atom_str)")
+	if !pc.atomStrUsed {
+		pc.atomStrUsed = true
+		for _, l := range pc.litOrder {
+			pc.sol.send("(assert (= (atom_str " + pc.lits[l] + ") " + smtString(l) + "))\n")
+		}
+	}
+	return &sym{s: sStr, e: "(atom_str " + a.e + ")"}
+}
+
+// atomBinop: operations on strings of which at least one is an atom.
+func atomBinop(op token.Token, x, y value) value {
+	ax, xa := x.(*sym)
+	ay, ya := y.(*sym)
+	xa = xa && ax.s == sAtom
+	ya = ya && ay.s == sAtom
+	var pc *pathCtx
+	if xa {
+		pc = ax.pc
+	} else {
+		pc = ay.pc
+	}
+	if op == token.EQL || op == token.NEQ {
+		var l, r string
+		switch {
+		case xa && ya:
+			l, r = ax.e, ay.e
+		case xa:
+			if cs, ok := y.(string); ok {
+				l, r = ax.e, pc.litAtom(cs)
+			} else {
+				return symBinopStr(op, atomStr(ax), symOf(y))
+			}
+		default:
+			if cs, ok := x.(string); ok {
+				l, r = pc.litAtom(cs), ay.e
+			} else {
+				return symBinopStr(op, symOf(x), atomStr(ay))
+			}
+		}
+		if l == r {
+			return op == token.EQL
+		}
+		if op == token.EQL {
+			return mkBool("(= " + l + " " + r + ")")
+		}
+		return mkBool("(not (= " + l + " " + r + "))")
+	}
+	// anything else works on the text
+	var sx, sy value = x, y
+	if xa {
+		sx = atomStr(ax)
+	}
+	if ya {
+		sy = atomStr(ay)
+	}
+	return symBinopStr(op, symOf(sx), symOf(sy))
+}
+
+func symBinopStr(op token.Token, a, b *sym) value {
+	return symBinop(nil, op, types.Typ[types.String], a, b)
 }
 
 func (s *sym) String() string { return "sym(" + s.e + ")" }
@@ -249,6 +322,9 @@ func symBinop(fr *frame, op token.Token, t types.Type, x, y value) value {
 	// shifts: right operand has its own type
 	if op == token.SHL || op == token.SHR {
 		return symShift(op, t, x, y)
+	}
+	if isAtom(x) || isAtom(y) {
+		return atomBinop(op, x, y)
 	}
 	a, b := symOf(x), symOf(y)
 	if a.s != b.s {
@@ -507,6 +583,9 @@ func symConv(tdst, tsrc types.Type, x *sym) value {
 
 // symLen returns len(s) for a symbolic string.
 func symLen(s *sym) *sym {
+	if s.s == sAtom {
+		s = atomStr(s)
+	}
 	l := "(str.len " + s.e + ")"
 	return &sym{s: sBV, w: 64, e: "((_ int2bv 64) " + l + ")", ie: l}
 }
